@@ -147,6 +147,29 @@ pub fn c09(rep: &mut Report, cfg: &Cfg) {
                 rep.evaluations += 1;
             }
         }
+        // memory locations whose low 16 / low 8 address bits equal those of a peripheral register
+        // (timer block, port DDR / DR): partial address decoding would show here
+        let mut aliases: Vec<u32> = vec![];
+        for s in (0xffff80u32..=0xffff9f).chain(0xffffd0..=0xffffda).chain(0xfee000..=0xfee00a) {
+            for page in 0x40u32..=0x5f {
+                aliases.push((page << 16) | (s & 0xffff));
+            }
+            for page in 0xffbfu32..=0xffff {
+                aliases.push((page << 8) | (s & 0xff));
+            }
+            aliases.push(s & 0xff);
+        }
+        for (i, a) in aliases.iter().enumerate() {
+            if locate(*a).is_none() || is_special_io(*a) || !plain(*a) {
+                continue;
+            }
+            // values that would start a clock / enable interrupts / drive pins if a peripheral saw them
+            let v = [0x41u8, 0xc2, 0xe3, 0xff, 0x0b][i % 5];
+            if cpu.bus.write(*a, v).is_ok() {
+                mem.poke(*a, v);
+            }
+            rep.evaluations += 1;
+        }
         for _ in 0..400 {
             let _ = catch_unwind(AssertUnwindSafe(|| cpu.verif_update_modules(255)));
         }
